@@ -50,7 +50,7 @@ def E_ROUNDTRIP(**kw):
 
 
 def E_CODECS(**kw):
-    d = dict(mode="E", schemas=[dict(name="codecs", run="go,go-http,go-client")], load_pkgs=["./gen/codecs"], pkgpath="verifmod/gen/codecs",
+    d = dict(mode="E", schemas=[dict(name="codecs", run="go,go-http")], load_pkgs=["./gen/codecs"], pkgpath="verifmod/gen/codecs",
              test_pkg="./gen/codecs", test_pkgname="codecs", init=[MOD + "/http", "verifmod/gen/codecs"],
              overlay={"gen/codecs/zz_verif_c04.go": "harness/c04/c04_codecs.go", "gen/codecs/zz_verif_c05.go": "harness/c05/c05_nested.go",
                       "gen/codecs/zz_verif_c11.go": "harness/c11/c11_decoders.go"})
@@ -225,7 +225,7 @@ PROPERTIES = {
         harnesses=[dict(func=f, reach=[r], quick=dict(budget=200), thorough=dict(budget=600)) for f, r in [
                      ("VerifC04Int64", "C04/int64/decided"), ("VerifC04Nullable", "C04/nullable/decided"), ("VerifC04EmptyBehavior", "C04/empty_behavior/decided"),
                      ("VerifC04Flatten", "C04/flatten/decided"), ("VerifC04FlattenChild", "C04/flatten-child/decided"), ("VerifC04Oneof", "C04/oneof/decided"),
-                     ("VerifC04OneofFlat", "C04/oneof-flat/decided"), ("VerifC04Bytes", "C04/bytes/decided")]] + [dict(func="VerifC05Nested", reach=["C05/nested/decided", "C05/nested/kf"], quick=dict(budget=200), thorough=dict(budget=600))],
+                     ("VerifC04OneofFlat", "C04/oneof-flat/decided"), ("VerifC04Bytes", "C04/bytes/decided"), ("VerifC05FlattenAnnotatedChild", "C05/flatten-annotated/decided")]] + [dict(func="VerifC05Nested", reach=["C05/nested/decided", "C05/nested/kf"], quick=dict(budget=200), thorough=dict(budget=600))],
         bounds_text={"quick": "as C04, with the obligation 'emitted JSON = reference mapping M(m)' (M transcribed from annotations.proto and the proto3 JSON mapping, DESIGN.md Appendix A) per message type; plus the nested contexts 'singular child' and 'list element' of an unannotated parent encoded through the emitted server response path (marshalResponse)"},
         assumptions=E_ASSUMPTIONS + CODEC_ASSUMPTIONS + ["contexts map value / plain oneof variant / sibling of an unwrap map are not covered yet"]),
     "C11": E_CODECS(
